@@ -336,6 +336,7 @@ def install():
     ens("equal_ranges", post_equal_ranges)
     ens("contains_approx", post_contains_approx)
     ens("contains_well_inside", post_contains_well_inside)
+    ens("overlaps_at_least", post_overlaps_at_least)
     ens("max_range", post_max_range)
     ens("interval_len", post_interval_len)
     ens("intervals_total_length", post_intervals_total_length)
